@@ -36,7 +36,9 @@ def run(ctx):
                                                        "{none, translate(inplace), inside translation(), rotate+remesh, scale+remesh}",
                                          mesh_modes="{full, compressed} x the same pre-save histories", solution_modes=["copy", "inplace", "deleted", "nofile (output_file=None)", "solved (the file tdgl.solve wrote)"],
                                          histories="save X; load; remove; save Y (same shapes, other content) under the same path; load - one process",
-                                         parameter_sessions=["same process", "fresh process without the defining names", "process with the names rebound"], recorded_steps="1..4", solution_probe_points=[False, True], solution_screening=[False, True]),
+                                         parameter_sessions=["same process", "fresh process without the defining names", "process with the names rebound"], recorded_steps="1..4", solution_time_dependent_inputs=["none", "disorder_epsilon(r, *, t)", "applied vector potential", "both"],
+                                         browsing="one loaded Solution, solve_step forwards / backwards / negative, every step against the raw file",
+                                         solution_probe_points=[False, True], solution_screening=[False, True]),
                          "ParamAlg": dict(operator_levels=2, level2_sampled_1_in=401 if quick else 23),
                          "mechanism": {"Persist": ps.MECH, "ParamAlg": pa.MECH}}
     # ---- 1. design
@@ -44,7 +46,7 @@ def run(ctx):
 
     with cf.ThreadPoolExecutor(2) as ex:
         f1 = ex.submit(ctx.model_check, "Persist", ps.model_cfg(kinds, maxdev, pairmod, ctx.seed, ps.MECH, ps.INVARIANTS + ["Emit"]),
-                       name="Persist[C14]", required_actions=["Deviate", "Shape", "Save", "Load", "Remove"], timeout=900)
+                       name="Persist[C14]", required_actions=["Deviate", "Shape", "Save", "Load", "MBrowse", "Remove"], timeout=900)
         f2 = ex.submit(ctx.model_check, "ParamAlg", pa.model_cfg(2, 401 if quick else 23, ctx.seed, pa.MECH,
                                                                  ["PickleRoundTrip", "TimeDepIffSomeOperand", "Emit"]),
                        name="ParamAlg[C14: PickleRoundTrip]", required_actions=["MPickle", "Unpickle", "MCallCopy"], timeout=900)
@@ -55,6 +57,8 @@ def run(ctx):
     if min(len(v) for v in by_kind.values()) == 0:
         raise core.MachineryFailure(f"C14: export incomplete {ctx.cov['records_enumerated']}")
     trees = pa.parse_export(rp)
+    # (expressions on shipped leaves are vector valued: C16 evaluates them; here they are pickled at one operator level only)
+    trees = [it for it in trees if not it["ship"] or it["level"] <= 1]
     trees.sort(key=lambda it: (it["level"], it["h"], pa.show(it["tree"])))
     ctx.cov["records_enumerated"]["parameter expressions"] = len(trees)
     small = ["options", "device", "mesh"]
@@ -74,6 +78,8 @@ def run(ctx):
              ("Persist[mutant: in-place translation leaves the Voronoi polygons behind, MeshRestoredEqualsRecomputed]",
               ps.model_cfg(["device", "mesh"], 1, 1, 0, dict(ps.MECH, MTransformRebuilds=False), ["MeshRestoredEqualsRecomputed"]),
               "MeshRestoredEqualsRecomputed"),
+             ("Persist[mutant: browsing keeps the disorder parameter of the step loaded first, BrowsedStepIsRecordedStep]",
+              ps.model_cfg(["solution"], 1, 1, 0, dict(ps.MECH, MBrowseRereads=False), ["BrowsedStepIsRecordedStep"]), "BrowsedStepIsRecordedStep"),
              ("Persist[mutant: reader memoises what it loaded by path, LoadSaveIdentity]",
               ps.model_cfg(["device", "mesh", "solution"], 1, 1, 0, dict(ps.MECH, MMemoByPath=True), ["LoadSaveIdentity"]), "LoadSaveIdentity"),
              ("Persist[mutant: polygon points not stored as held, FileHoldsContent]",
@@ -112,20 +118,22 @@ def run(ctx):
         for s in by_kind["mesh"]:
             mcases.append(dict(shape=s, dev=dev, mel=mel, smooth=smooth, history=True))
     jobs += [("call", dict(module="harness.persist", func="mesh_case", args=a)) for a in mcases]
-    scases = [dict(shape=s, dev="barhole" if n % 2 == 0 else "film", pre=["none", "translate", "context", "none", "rotate", "none"][n % 6], history=s["mode"] != "inplace" and (not quick or n % 2 == 0 or s["mode"] == "solved"))
+    scases = [dict(shape=s, dev="barhole" if n % 2 == 0 else "film", pre=["none", "translate", "context", "none", "rotate", "none"][n % 6], history=s["mode"] != "inplace" and (not quick or n % 3 == 0 or (s["mode"] == "solved" and s["dyn"] == "none")))
               for n, s in enumerate(by_kind["solution"])]
+    if quick:
+        scases = scases[ctx.seed % 2::2]      # quick: a seeded half of the solution shapes
     jobs += [("call", dict(module="harness.persist", func="solution_case", args=a)) for a in scases]
     pwork = []
     for n, it in enumerate(trees):
         pwork.append({"tree": it["tree"]})
-        if it["level"] <= 1 or n % (4 if quick else 2) == 0:
+        if not it["ship"] and (it["level"] <= 1 or n % (4 if quick else 2) == 0):
             pwork.append({"tree": it["tree"], "via": "solution", "slot": "applied_vector_potential" if n % 3 else "disorder_epsilon"})
     pjobs = [("call", dict(module="harness.persist", func="params_many", args={"items": c})) for c in chunks(pwork, 12)]
     # the same expressions on plain named functions of a driver script's __main__, saved in one process and loaded in a
     # fresh process / in a process where the names are rebound
     xwork = [{"tree": it["tree"], "methods": ["pickle", "cloudpickle"] + (["solution"] if n % 4 == 0 else []),
               "slot": "applied_vector_potential" if n % 8 else "disorder_epsilon"}
-             for n, it in enumerate(trees) if not it["twin"] and (it["level"] <= 1 or n % (3 if quick else 1) == 0)]
+             for n, it in enumerate(trees) if not it["twin"] and not it["ship"] and (it["level"] <= 1 or n % (3 if quick else 1) == 0)]
     pjobs += [("call", dict(module="harness.persist", func="params_crossproc", args={"items": c})) for c in chunks(xwork, 2 if quick else 8)]
     jobs += pjobs
     res = rf.replay_all(ctx, jobs)
@@ -191,37 +199,51 @@ def run(ctx):
         bad = copy.deepcopy(norm[acc_by_kind["device"][-1]])
         bad["ev"][-1]["rec"]["layer"]["gamma"] += 50
         reject(bad, "loaded layer.gamma differs")
+    def loads(tr):
+        return [e for e in tr["ev"] if e["ev"] == "load"]
+
     if acc_by_kind["solution"]:
-        cands = [n for n in acc_by_kind["solution"] if len(norm[n]["ev"][-1]["rec"]["frames"]) >= 2]
+        cands = [n for n in acc_by_kind["solution"] if len(loads(norm[n])[-1]["rec"]["frames"]) >= 2]
         if cands:
             bad = copy.deepcopy(norm[cands[0]])
-            fr = bad["ev"][-1]["rec"]["frames"]
+            fr = loads(bad)[-1]["rec"]["frames"]
             fr[0], fr[1] = fr[1], fr[0]
             reject(bad, "loaded frames swapped")
         for fld in ("dt", "screening_iterations"):
-            cands = [n for n in acc_by_kind["solution"] if norm[n]["ev"][-1]["rec"]["dyn"][fld] != 0 and not norm[n]["shape"]["probes"]]
+            cands = [n for n in acc_by_kind["solution"] if loads(norm[n])[-1]["rec"]["dyn"][fld] != 0 and not norm[n]["shape"]["probes"]]
             if cands:
                 bad = copy.deepcopy(norm[cands[-1]])
-                bad["ev"][-1]["rec"]["dyn"][fld] = 0
+                loads(bad)[-1]["rec"]["dyn"][fld] = 0
                 reject(bad, f"loaded dynamics lack {fld}")
         bad = copy.deepcopy(norm[acc_by_kind["solution"][-1]])
-        bad["ev"][-1]["rec"]["times"] += 1
+        loads(bad)[-1]["rec"]["times"] += 1
         reject(bad, "loaded Solution.times differ")
+        # browsing canary: one step shown while browsing is another recorded step (the data of the step loaded first)
+        cands = [n for n in acc_by_kind["solution"] if norm[n]["shape"]["dyn"] in ("eps", "both") and norm[n]["shape"]["nframes"] >= 3
+                 and norm[n]["shape"]["mode"] in ("copy", "inplace", "solved")]
+        if cands:
+            bad = copy.deepcopy(norm[cands[0]])
+            br = [e for e in bad["ev"] if e["ev"] == "browse"]
+            br[1]["frame"] = br[0]["frame"]
+            reject(bad, "browsing shows the data of the step loaded first")
+        elif not ctx.violations:
+            raise core.MachineryFailure("C14: no accepted browsing of a solution with a time-dependent disorder parameter")
     # history canary: the second load answers with what the path held BEFORE it was removed and rewritten
     for k in ("device", "mesh", "solution"):
-        cands = [n for n in acc_by_kind[k] if len(norm[n]["ev"]) == 7]
+        cands = [n for n in acc_by_kind[k] if any(e["ev"] == "remove" for e in norm[n]["ev"]) and len(loads(norm[n])) == 2]
         if not cands:
             if not ctx.violations:       # (every history rejected is a verdict, not a harness problem)
                 raise core.MachineryFailure(f"C14: no accepted history of kind {k}")
             continue
         bad = copy.deepcopy(norm[cands[len(cands) // 2]])
+        first, second = loads(bad)
         if k == "solution":
-            bad["ev"][6]["rec"]["mesh"] = bad["ev"][2]["rec"]["mesh"]
-            bad["ev"][6]["rec"]["currents"] = bad["ev"][2]["rec"]["currents"]
+            second["rec"]["mesh"] = first["rec"]["mesh"]
+            second["rec"]["currents"] = first["rec"]["currents"]
         elif k == "device":
-            bad["ev"][6]["rec"] = bad["ev"][2]["rec"]
+            second["rec"] = first["rec"]
         else:
-            bad["ev"][6]["rec"]["sites"] = bad["ev"][2]["rec"]["sites"]
+            second["rec"]["sites"] = first["rec"]["sites"]
         reject(bad, f"{k}: second load under the same path returns the first object")
     if bads:
         acc, _ = ctx.validate_traces("PersistTrace", [b for b, _ in bads], ps.trace_cfg(), name="canaries[corrupted observations]", count=False)
